@@ -292,13 +292,14 @@ def check_return(rv, items, fe, zeroed, line, report):
 
 def run(prop="C17", tier="quick"):
     res = dict(findings=[], stats=collections.Counter(), samples=[], notes=[])
-    cfg = sa.Config("built-stream", extra_files=[FIXTURE])
-    ex = sa.export(cfg)
+    ex = sa.export(sa.cfg_builtfx())
     sa.check_errors(ex)
     # library functions that take the stream themselves and report failure as 0
     lib = {}
     fns = []
     for path, fn in ex.functions():
+        if sa.is_foreign_fixture(path, FIXTURE):
+            continue
         if any(is_file_ptr(p.get("ct", "")) for p in fn["params"]):
             fns.append((path, fn))
     direct = set(OUT_COUNT) | set(IN_COUNT) | OUT_EOF | OUT_NEG
